@@ -15,6 +15,21 @@ fn canon(d: &[u8]) -> Vec<u8> {
     out
 }
 
+/// the RFC 9580 7.2 signed form, stated independently: trailing spaces and tabs
+/// of every line removed, then every line ending made CR LF
+fn rfc_signed_form(t: &[u8]) -> Vec<u8> {
+    let mut out = Vec::new();
+    for line in t.split_inclusive(|&b| b == b'\n') {
+        let (content, end): (&[u8], &[u8]) = if line.ends_with(b"\r\n") { (&line[..line.len() - 2], b"\r\n") }
+            else if line.ends_with(b"\n") { (&line[..line.len() - 1], b"\n") } else { (line, b"") };
+        let mut e = content.len();
+        while e > 0 && (content[e - 1] == b' ' || content[e - 1] == b'\t') { e -= 1; }
+        out.extend_from_slice(&content[..e]);
+        out.extend_from_slice(end);
+    }
+    canon(&out)
+}
+
 impl Ctx {
     fn config(&self, hash: HashAlgorithm) -> SignatureConfig {
         let mut c = SignatureConfig::v4(SignatureType::Text, self.rk.algorithm(), hash);
@@ -59,7 +74,7 @@ impl Ctx {
         match r {
             Ok(Ok((esc, signed, rb, ok))) => {
                 self.out.case("escape", &[hx(t)], &["cycle".into(), hx(t), k.into()], &esc, None, cls);
-                self.out.case("signed", &[hx(t)], &["cycle".into(), hx(t), k.into()], &signed, None, cls);
+                self.out.case("signed", &[hx(t)], &["cycle".into(), hx(t), k.into()], &signed, Some(unhx(&signed) == rfc_signed_form(t)), cls);
                 self.out.case("readback", &[hx(t)], &["cycle".into(), hx(t), k.into()], &rb, Some(ok), cls);
             }
             Ok(Err(e)) => self.out.case("readback", &[hx(t)], &["cycle".into(), hx(t), k.into()], &format!("ERR {e}"), Some(false), cls),
@@ -165,6 +180,5 @@ fn main() {
         if i % 2 == 0 { cx.tamper(t.as_bytes(), "tamper"); }
     }
     for s in strings_over(&alpha, 3) { cx.tamper(&s, "tamper-small"); }
-    let _ = canon(&[]);
     cx.out.finish();
 }
